@@ -27,6 +27,12 @@ def carryExportL (o : OutOpts) : List Tree → List Tree
   | t :: ts => carryExport o t :: carryExportL o ts
 end
 
+/-- the root itself is not written in an export file (it is node 0, the virtual root) -/
+def carryExportRoot (o : OutOpts) (t : Tree) : Tree :=
+  match carryExport o t with
+  | node _ ks => node { label := DEFAULT_ROOT, edge := some DEFAULT_EDGE } ks
+  | x => x
+
 mutual
 /-- bracket formats hold labels and words only; parentheses inside tokens are mapped -/
 def carryBrackets (o : OutOpts) (root : Bool) : Tree → Tree
